@@ -891,3 +891,110 @@ def failure_channel(ctx):
                 continue
             ctx.unsure('%s: use of the provider answer for `%s` not classified: %s' % (qn, what, norm(p_)[:80]))
     ctx.floor(n, 14, 'provider queries in Service')
+
+
+@PROP.obligation('C20.per-query-state', canaries=[
+    mut.drop_stmt(SVC, 'Service._reset_results', 'self.errors = {}', 'failures of earlier queries count towards the error limit'),
+    mut.drop_stmt(SVC, 'Service._reset_results', 'self.results = {}', 'answers of earlier queries survive into the next one'),
+    mut.drop_stmt(SVC, 'Service._reset_results', 'self.resultcount = 0', 'answer count of earlier queries survives'),
+])
+def per_query_state(ctx):
+    """The fail-over loop of Service._provider_execute accumulates into attributes of the long-lived Service object: failures
+    (self.errors), answers (self.results), the answer count. "The error limit is reached" and "a provider answered" are statements about
+    THIS query, so each of these attributes is reset before the loop on every path - by _provider_execute itself or by the method it calls
+    first. A counter that survives a query aborts later queries although a healthy provider was available."""
+    q = SVC + ':Service._provider_execute'
+    fn = ctx.repo.func(q)
+    loops = [n for n in fn.body if isinstance(n, ast.For)]
+    if len(loops) != 1:
+        ctx.undecided('_provider_execute: %d provider loops at statement level, expected 1' % len(loops))
+    loop = loops[0]
+    acc = {}
+    for n in ast.walk(loop):
+        if isinstance(n, ast.Call) and isinstance(n.func, ast.Attribute) and n.func.attr in ('update', 'append', 'add', 'setdefault', 'extend') and isinstance(n.func.value, ast.Attribute) and norm(n.func.value.value) == 'self':
+            acc.setdefault(n.func.value.attr, n)
+        if isinstance(n, ast.AugAssign) and isinstance(n.target, ast.Attribute) and norm(n.target.value) == 'self':
+            acc.setdefault(n.target.attr, n)
+        if isinstance(n, ast.Assign):
+            for t in n.targets:
+                if isinstance(t, ast.Subscript) and isinstance(t.value, ast.Attribute) and norm(t.value.value) == 'self':
+                    acc.setdefault(t.value.attr, n)
+    ctx.saw('attributes the provider loop accumulates into: %s' % sorted(acc))
+    ctx.floor(len(acc), 3, 'accumulated attributes')
+    # statements before the loop: direct assignments and the self-methods called there
+    before = fn.body[:fn.body.index(loop)]
+    reset = set()
+    for st in before:
+        for n in ast.walk(st):
+            if isinstance(n, ast.Assign):
+                for t in n.targets:
+                    if isinstance(t, ast.Attribute) and norm(t.value) == 'self':
+                        reset.add(t.attr)
+            if isinstance(n, ast.Call) and isinstance(n.func, ast.Attribute) and norm(n.func.value) == 'self' and isinstance(st, ast.Expr) and st.value is n:
+                callee = ctx.repo.resolve_method(SVC + ':Service', n.func.attr)
+                if callee:
+                    for b in ctx.repo.func(callee).body:      # unconditional statements only
+                        if isinstance(b, ast.Assign):
+                            for t in b.targets:
+                                if isinstance(t, ast.Attribute) and norm(t.value) == 'self':
+                                    reset.add(t.attr)
+    ctx.saw('attributes reset unconditionally before the loop: %s' % sorted(reset))
+    for a, node in sorted(acc.items()):
+        ctx.require(a in reset, q, 'self.%s is accumulated by the provider loop (`%s`) but not reset at the start of the query' % (a, norm(node)[:60]), node,
+                    'the error limit counts the providers that failed in ANY earlier query of the Service object: a later query is aborted (answer False / ServiceError) although fewer than max_errors providers failed in it and a healthy one was available' if a == 'errors'
+                    else 'data of an earlier query is part of the answer of this one')
+
+
+@PROP.obligation('C20.cache-network', canaries=[
+    mut.replace_expr(SVC, 'Cache.getblock', 'qr.filter_by(height=blockid, network_name=self.network.name)', 'qr.filter_by(height=blockid)', 'cached block looked up by height alone'),
+])
+def cache_network(ctx):
+    """The cache database is shared by all networks, and block heights coincide across chains. Every look-up of the Cache readers that
+    selects rows by a HEIGHT (DbCacheBlock.height, DbCacheTransaction.block_height) also selects by network_name = the network of the
+    service; a primary-key get() on the block table (the key is the height) is such a look-up without network. Hashes (txid, block hash)
+    identify a row by themselves."""
+    m = ctx.repo.mod(SVC)
+    n = 0
+    for qn, fn in sorted(m.functions.items()):
+        if not qn.startswith('Cache.get') and qn not in ('Cache.blockcount', 'Cache.estimatefee'):
+            continue
+        for c in ast.walk(fn):
+            if not isinstance(c, ast.Call) or not isinstance(c.func, ast.Attribute):
+                continue
+            if c.func.attr == 'get' and norm(c.func.value).endswith('session') and c.args and 'DbCacheBlock' in norm(c.args[0]):
+                n += 1
+                ctx.violate(SVC + ':' + qn, 'a cached block is fetched by primary key (`%s`): the key is the height, the network is not part of the look-up' % norm(c)[:70], c,
+                            "Service('bitcoin').getblock(h) is answered with the litecoin block cached at the same height - foreign hash, merkle root and transactions - and no bitcoin provider is asked")
+                continue
+            if c.func.attr not in ('filter_by', 'filter'):
+                continue
+            preds = [k.arg for k in c.keywords] if c.func.attr == 'filter_by' else [norm(a) for a in c.args]
+            by_height = [p_ for p_ in preds if p_ == 'height' or p_ == 'block_height' or '.height ==' in p_ or '.block_height ==' in p_]
+            if not by_height:
+                continue
+            n += 1
+            # predicates of the whole chain this call belongs to (calls it is applied to and calls applied to it)
+            chain = list(preds)
+            cur = c.func.value
+            while isinstance(cur, ast.Call) and isinstance(cur.func, ast.Attribute):
+                if cur.func.attr == 'filter_by':
+                    chain += [k.arg for k in cur.keywords]
+                elif cur.func.attr == 'filter':
+                    chain += [norm(a) for a in cur.args]
+                cur = cur.func.value
+            parents = {}
+            for x in ast.walk(fn):
+                for y in ast.iter_child_nodes(x):
+                    parents[y] = x
+            up = c
+            while isinstance(parents.get(up), ast.Attribute) and isinstance(parents.get(parents[up]), ast.Call):
+                up = parents[parents[up]]
+                if up.func.attr == 'filter_by':
+                    chain += [k.arg for k in up.keywords]
+                elif up.func.attr == 'filter':
+                    chain += [norm(a) for a in up.args]
+            scoped = any('network_name' in p_ for p_ in chain)
+            ctx.saw('%s: rows selected by %s, network predicate: %s' % (qn, by_height, scoped))
+            ctx.require(scoped, SVC + ':' + qn, 'cached rows are selected by %s without a predicate on network_name' % ', '.join(by_height)[:80], c,
+                        'two networks share one cache database: the block page of one network is served with the transactions of the other network cached at the same height')
+    ctx.floor(n, 2, 'height look-ups in the cache readers')
